@@ -125,7 +125,7 @@ def oracle_step(tup, s, toks):
 def run_histories(ctx, model, cov, prop_classes=None):
     common.scrub_process_env()
     tup = common.import_impl()
-    n = ctx.pick(250, 5000)
+    n = ctx.pick(700, 10000)
     hs = []
     for i in range(n):
         hs.append(ic.random_history(ctx, tup, i, cov, large=(i % 3 == 2)))
